@@ -113,6 +113,35 @@ def epochHasTie (o : EpochOpts Float) (p : Pop Float) : Bool :=
     (let p1 := purgeZeroOffspringSpecies { p with species := ss }
      p1.species.length > 12 && sortHasTie (fun a b => speciesLess b a) p1.species)
 
+/-- the genome dumps of a dumped population, species by species (the order of `species.flatMap orgs`) -/
+def popGenomesJ (j : Json) : List Json :=
+  match fldArr j "species" with
+  | .error _ => []
+  | .ok sps => sps.flatMap fun sj =>
+      match fldArr sj "orgs" with
+      | .error _ => []
+      | .ok os => os.filterMap fun oj => (fld oj "genome").toOption
+
+/-- all first genes of a population carry one innovation number (false for random-topology populations: K1) -/
+def popSharedHead (p : Pop Float) : Bool :=
+  match (p.species.flatMap (·.orgs)).map (fun x => x.genome.genes.head?.map (·.inn)) with
+  | [] => true
+  | h :: t => t.all (· == h)
+
+/-- C01 on the genomes of a produced population, each against the ancestors `anc` (for `Retains`) -/
+def c01Pop (op : String) (anc : List (Genome Float)) (popJ : Json) (p : Pop Float) (genesis : String) : Option (String × String) :=
+  let gs := (p.species.flatMap (·.orgs)).map (·.genome)
+  let js := popGenomesJ popJ
+  let rec go : List (Genome Float) → List Json → Option (String × String)
+    | g :: gs, gj :: js =>
+      (match c01Produced op anc g gj "" with
+       | some r => some r
+       | none => go gs js)
+    | _, _ => none
+  match go gs js with
+  | some r => some r
+  | none => if genesis != "" then some ("Genome.Genesis fails on a genome of the new population: " ++ genesis, "wf:" ++ op ++ ":genesis:" ++ genesis) else none
+
 def hEpoch : Handler := fun j => do
   let inp ← fld j "in"
   let out ← fld j "out"
@@ -139,10 +168,13 @@ def hEpoch : Handler := fun j => do
       | .error e => stopStr e == ie
       | .ok _ => false
     let c02 := !inputOk
+    -- known finding K1: populations whose members do not share their first gene (random topologies)
+    let k1 := !popSharedHead p && (ie == "noGenes" || ie == "genesis:noGenes" || ie == "noTraitsOrGenes")
+    let esig := if k1 then k1EpochSig else "epoch:error:" ++ ie
     return { corr := corr || tie, spec := c02, nontrivial := false, cls := cls, tie := tie,
              detail := if corr then "" else s!"impl epoch error {ie} (phase {(fldStr out "phase").toOption.getD "?"}) not reproduced by the model",
-             props := [("C02", c02, "epoch failed on a valid population: " ++ ie, "epoch:error:" ++ ie),
-                       ("C01", c02, "epoch failed on a valid population: " ++ ie, "epoch:error:" ++ ie)] }
+             props := [("C02", c02, "epoch failed on a valid population: " ++ ie, esig),
+                       ("C01", c02, "epoch failed on a valid population: " ++ ie, esig)] }
   | none =>
     let afterPrepJ ← fld out "afterPrepare"
     let afterJ ← fld out "after"
@@ -178,18 +210,26 @@ def hEpoch : Handler := fun j => do
       else if !popHeapOk afterJ then "organism back pointer / genome ownership broken"
       else if fresh != "" then fresh
       else PopSpec.agesStepWhy p a
-    let c01why : String :=
-      if !inputOk then ""
-      else match (a.species.flatMap (·.orgs)).find? (fun x => !decide (WF x.genome)) with
-        | some x => "genome not well-formed after epoch: " ++ wfWhy x.genome
-        | none => if verifyErr.isSome then "Population.Verify fails: " ++ verifyErr.getD "" else ""
+    let genesis := (fldStr out "genesis").toOption.getD ""
+    let inputOk1 := inputOk && p.species.all (fun s => s.orgs.all (fun x => decide (C01.TraitIdsNonzero x.genome)))
+    -- ancestors for `Retains`: one representative per distinct IO-node list is enough (all members share it under SameLineage)
+    let anc := ((p.species.flatMap (·.orgs)).map (·.genome)).take 1
+    let c01r : Option (String × String) :=
+      if !inputOk1 then none
+      else match c01Pop "epoch" anc afterJ a genesis with
+        | some r =>
+          -- K1 at epoch level: a gene-less baby survived (mate-only branch) in a population without a common first gene
+          if !popSharedHead p && (a.species.flatMap (·.orgs)).any (fun x => x.genome.genes.isEmpty) then some (r.1, k1EpochSig) else some r
+        | none => if verifyErr.isSome then some ("Population.Verify fails: " ++ verifyErr.getD "", "wf:epoch:verify") else none
+    let c01why : String := (c01r.map (·.1)).getD ""
+    let c01sig : String := (c01r.map (·.2)).getD ""
     let c09why : String := if !inputOk then "" else (let q := PopSpec.quotasWhy ap n; if q != "" then q else PopSpec.parentsWhy o p ap)
     let c10why : String := if !inputOk then "" else PopSpec.championWhy bitEq ap a
     let c03why : String := if !inputOk then "" else PopSpec.innovWhy p a
     let structural := a.species.any (fun s => s.orgs.any (·.mutStructBaby))
     return { corr := corr, spec := c02why == "" && c01why == "" && c09why == "" && c10why == "" && c03why == "",
              nontrivial := inputOk && a.species.length ≥ 1 && (structural || ap.species.length ≥ 2), cls := cls, tie := tie, detail := detail,
-             props := [("C02", c02why == "", c02why, "epoch:popinv"), ("C01", c01why == "", c01why, "epoch:wf"),
+             props := [("C02", c02why == "", c02why, "epoch:popinv"), ("C01", c01why == "", c01why, c01sig),
                        ("C09", c09why == "", c09why, "epoch:quotas"), ("C10", c10why == "", c10why, "epoch:champion"),
                        ("C03", c03why == "", c03why, "epoch:innov"), ("C17", true, "", "")] }
 
@@ -221,15 +261,18 @@ def hSpawn : Handler := fun j => do
     let startIntact := (jsonDiff "start" gj (← fld out "startAfter")).isNone
     let c06 := !inputWF || (sameTopo && shared == "" && startIntact)
     let c02 := !inputWF || (PopSpec.popInvB ip o.popSize && popHeapOk popJ)
-    let c01 := !inputWF || members.all (fun m => decide (WF m.genome))
+    let genesis := (fldStr out "genesis").toOption.getD ""
+    let c01r : Option (String × String) :=
+      if !(inputWF && decide (C01.TraitIdsNonzero g) && g.modules.isEmpty) then none else c01Pop "spawn" [g] popJ ip genesis
+    let c01 := c01r.isNone
     let c03 := !inputWF || (decide (ip.reg.nextInn ≥ (g.genes.map (·.inn)).foldl max 0) && decide (ip.reg.nextNode ≥ (g.nodes.map (·.id)).foldl max 0))
     return { corr := corr, spec := c06 && c02 && c01 && c03, nontrivial := inputWF && g.genes.any (fun y => !y.en), cls := (← fldStr inp "origin"),
              detail := (d.getD "") ++ (if used == consumed then "" else s!" randomness {used} vs {consumed}"),
              props := [("C06", c06, "spawned member differs from the start genome in more than weights, or shares state", "spawn:topology"),
                        ("C02", c02, "spawned population violates the population invariant: " ++ PopSpec.popInvWhy ip o.popSize, "spawn:popinv"),
-                       ("C01", c01, "spawned genome not well-formed", "spawn:wf"),
+                       ("C01", c01, (c01r.map (·.1)).getD "", (c01r.map (·.2)).getD ""),
                        -- counters hold the LAST number in use (the next issued is counter+1): `≥` is the C03 convention (Spec/Registry.lean)
-                     ("C03", c03, "counters not above the start genome", "spawn:counters")] }
+                       ("C03", c03, "counters not above the start genome", "spawn:counters")] }
 
 def hSpeciate : Handler := fun j => do
   let inp ← fld j "in"
@@ -258,6 +301,7 @@ def hSpeciate : Handler := fun j => do
              cls := s!"species={ip.species.length}", detail := d.getD "",
              props := [("C08", why == "", why, "speciate:" ++ why)] }
 
-def populationOps : List (String × Handler) := [("epoch", hEpoch), ("spawn", hSpawn), ("speciate", hSpeciate)]
+def populationOps : List (String × Handler) :=
+  [("epoch", hEpoch), ("epochRand", hEpoch), ("spawn", hSpawn), ("speciate", hSpeciate)]
 
 end GoNeat.Driver
